@@ -441,3 +441,69 @@ Proof.
   cbv zeta. split; [vm_compute; reflexivity|].
   eexists. split; [vm_compute; reflexivity|]. vm_compute. auto.
 Qed.
+
+(* ================= tag order in the selector text ================= *)
+
+(* the texts of a selector that differ in tag order / surrounding white space parse to the same label map
+   (KeyProofs.order_ws_parse), hence select the same series *)
+Theorem selector_text_order : forall n n' l l' st,
+  name_ok n -> name_ok n' -> Forall tag_ok l -> Forall tag_ok l' ->
+  trim n = trim n' -> NoDup (map fst (trim_tags l)) -> Permutation (trim_tags l) (trim_tags l') ->
+  ix_select_series (parse (render n l)) st = ix_select_series (parse (render n' l')) st /\
+  ix_get (parse (render n l)) st = ix_get (parse (render n' l')) st.
+Proof.
+  intros n n' l l' st H1 H2 H3 H4 H5 H6 H7.
+  rewrite (order_ws_parse n n' l l' H1 H2 H3 H4 H5 H6 H7). auto.
+Qed.
+
+(* whatever order Go's map iteration hands the selector's dimensions to Intersection in *)
+Theorem select_any_order : forall st L Q Q', Inv st L -> Permutation Q Q' ->
+  intersection (map (fun kv => dm_get (dim_name (fst kv) (snd kv)) (ix_dims st)) Q') = ix_select Q st.
+Proof.
+  intros st L Q Q' HI Hp. unfold ix_select. symmetry. apply intersection_perm.
+  - apply Forall_map. apply Forall_forall. intros kv _. apply (inv_sorted _ _ HI).
+  - apply Permutation_map. exact Hp.
+Qed.
+
+(* ================= no invented label values ================= *)
+
+Lemma put_labels_only : forall K s e,
+  In e (fold_left (fun s kv => labels_put (fst kv) (snd kv) s) K s) ->
+  In e s \/ exists k v, In (k, v) K /\ (e = lkey k \/ e = vkey k v).
+Proof.
+  induction K as [|[k0 v0] K IH]; intros s e H; cbn in H; auto.
+  apply IH in H. destruct H as [H|[k [v [Hkv He]]]].
+  - apply labels_put_In in H. destruct H as [H|[H|H]]; auto; right; exists k0, v0; cbn; auto.
+  - right. exists k, v. cbn. auto.
+Qed.
+
+Lemma run_labels_only : forall ops st e, In e (ix_labels (fold_left ix_step ops st)) ->
+  In e (ix_labels st) \/ exists K s c k v, In (IPut K s c) ops /\ In (k, v) K /\ (e = lkey k \/ e = vkey k v).
+Proof.
+  induction ops as [|o ops IH]; intros st e H; cbn in H; auto.
+  apply IH in H. destruct H as [H|[K [s [c [k [v [H1 H2]]]]]]].
+  - destruct o as [K s c|Q]; cbn in H.
+    + apply put_labels_only in H. destruct H as [H|[k [v [Hkv He]]]]; auto.
+      right. exists K, s, c, k, v. cbn. auto.
+    + unfold ix_delete in H. destruct (ix_select Q st); auto. rewrite delete_fold_labels in H. auto.
+  - right. exists K, s, c, k, v. cbn. auto.
+Qed.
+
+(* a value listed under a ':'-free name was ingested under that name, when no ingested tag name has ':' *)
+Theorem labels_exact : forall ops k v,
+  (forall K s c, In (IPut K s c) ops -> Forall (fun kv => has c_colon (fst kv) = false) K) ->
+  has c_colon k = false ->
+  (In v (get_values k (ix_labels (ix_run ops))) <-> exists K s c, In (IPut K s c) ops /\ In (k, v) K).
+Proof.
+  intros ops k v Hc Hk. split.
+  - intros H. unfold get_values in H. apply scan_In in H. unfold ix_run in H.
+    apply run_labels_only in H. destruct H as [[]|[K [s [c [k' [v' [Hop [Hkv He]]]]]]]].
+    exists K, s, c. split; auto.
+    pose proof (Hc _ _ _ Hop) as HK. rewrite Forall_forall in HK. apply HK in Hkv as Hk'. cbn in Hk'.
+    destruct He as [He|He].
+    + unfold vprefix, lkey in He. cbn in He. inversion He.
+    + unfold vprefix, vkey in He. cbn in He. inversion He as [E].
+      rewrite <- !app_assoc in E. cbn in E.
+      destruct (colon_split _ _ _ _ Hk Hk' E) as [-> ->]. exact Hkv.
+  - intros [K [s [c [Hop Hkv]]]]. eapply labels_verbatim; eauto.
+Qed.
